@@ -16,7 +16,8 @@ CLAUSE → THEOREM TABLE (R1 review; property text in properties.jsonl)
        thresholder : `thresholder_pmf_range` (any dict of valid rules, seen or unseen group, any score),
                      `fitted_pmf_is_distribution_simple / _EO` (every fitted model, NO further hypothesis),
                      `thresholder_pmf_range_slack` (float slack on p0 + p1)
-       EG          : `eg_pmf_range`, `eg_pmf_row_distribution` (row `(1 - p, p)`).  HYPOTHESES, not derived here:
+       EG          : `eg_pmf_range`, `eg_pmf_range_slack`, `eg_pmf_row_distribution` (row `(1 - p, p)`); the sum
+                     hypothesis is needed: `eg_pmf_range_needs_sum`.  HYPOTHESES, not derived here:
                      `weights_` is a probability vector over distinct predictor ids and the stored classifiers output
                      values in [0,1]; evaluated by the harness on every fitted model (relation `C10.eg_pmf_range.hyp`);
                      that the EG loop produces such weights is C08's subject.
@@ -349,6 +350,28 @@ theorem eg_pmf_range (preds : List Rat) (weights : List (Nat × Rat))
   simp only [List.map_map, Function.comp_def] at this
   rw [hsum] at this
   exact this
+
+/-- the same WITHOUT assuming the weights sum to exactly 1 (the LP step returns `weights_` that sum to 1 only up to the
+    solver's tolerance; the harness evaluates `|Σ weights_ - 1| ≤ 1e-7`): `0 ≤ p ≤ Σ weights_ ≤ 1 + eps` -/
+theorem eg_pmf_range_slack (preds : List Rat) (weights : List (Nat × Rat)) (eps : Rat)
+    (hnd : (weights.map (·.1)).Nodup) (hw : ∀ e ∈ weights, 0 ≤ e.2)
+    (hsum : (weights.map (·.2)).sum ≤ 1 + eps)
+    (hp : ∀ e ∈ weights, 0 ≤ preds.getD e.1 0 ∧ preds.getD e.1 0 ≤ 1) :
+    0 ≤ egPositive preds weights ∧ egPositive preds weights ≤ 1 + eps := by
+  rw [egPositive_eq_sum preds weights hnd]
+  have := sum_mul_le_sum (weights.map (fun e => (preds.getD e.1 0, e.2))) (by
+    intro x hx
+    obtain ⟨e, he, rfl⟩ := List.mem_map.mp hx
+    exact ⟨(hp e he).1, (hp e he).2, hw e he⟩)
+  simp only [List.map_map, Function.comp_def] at this
+  exact ⟨this.1, le_trans this.2 hsum⟩
+
+/-- the hypothesis `Σ weights_ = 1` of `eg_pmf_range` is NEEDED (the model function, like the code, just forms the dot
+    product): weights summing to 3/2 give the "probability" 3/2.  The harness therefore evaluates the hypothesis on every
+    fitted model (`C10.eg_pmf_range.hyp`) -/
+theorem eg_pmf_range_needs_sum :
+    (∀ e ∈ [((0 : Nat), (3/4 : Rat)), (1, 3/4)], 0 ≤ e.2) ∧ egPositive [1, 1] [(0, 3/4), (1, 3/4)] = 3/2 := by
+  decide +kernel
 
 /-- the reported row `(1 - p, p)` of `ExponentiatedGradient._pmf_predict` is a valid distribution under the same
     hypotheses.  (The column expression `np.concatenate((1 - positive_probs, positive_probs), axis=1)` is NOT lifted;
